@@ -30,7 +30,23 @@ ASSUMPTIONS = [
     'an Inventory is modelled by the list of its positions (dict values); currencies() is a set whose iteration order is '
     'hash dependent: proved irrelevant (C17_census_order_irrelevant)',
     'str comparison of currency names = lexicographic comparison of code points',
+    'translator tie (C17_source_*): coq/Gen/SrcNumberify.v is regenerated from the source of beanquery/numberify.py on every '
+    'run (harness/vf/src_numberify.py, rules R1-R8 of its docstring: truth values of objects, `continue`, defaultdict(int), '
+    '`m[k] += v`, lambdas as synthetic functions, tuple-pattern comprehensions, calls of local names, CONVERTING_TYPES.get as '
+    'generated data); trusted there: the PyMini semantics of the fragment (Model/PyMini.v), the encoding of Amount / Position / '
+    'Inventory / Column / converter objects and the stated behaviour of every primitive in Model/PrimsNumberify.v (Amount.__bool__, '
+    'Inventory.get_currency_units / currencies, dformat.quantize, defaultdict, sorted with an (int, str) key, str.format for the one '
+    'template, calling an object = interpreting the translated __call__ of its class), and that calling a converter class / Column '
+    'builds the object whose fields __init__ assigns (ctors_ok; the __init__ bodies themselves are translated and tied)',
 ]
+
+
+def generate():
+    """translator tie: regenerate coq/Gen/SrcNumberify.v from the source of the imported beanquery.numberify (py2mini +
+    src_numberify); raises py2mini.Untranslatable when a tied function left the fragment (reported as translator-failed)"""
+    from . import gen_src
+    return gen_src.generate('numberify')
+
 
 PLAIN = {'int': int, 'decimal': D, 'str': str, 'date': datetime.date, 'bool': bool}
 PLAIN_CODE = {int: 0, D: 1, str: 2, datetime.date: 3, bool: 4}
